@@ -49,6 +49,7 @@ func allRules() []*Rule {
 		ruleR35(),
 		ruleR36(),
 		ruleR37(),
+		ruleR38(),
 		ruleR21(),
 		with(ruleR22(), r22NoStaleSnapshot),
 		with(ruleR23(), r23ExclusionLookedAt),
